@@ -146,10 +146,10 @@ int64_t evaluate_assignment(
                 replacement = std::string();
             }
             interpreter.assign_string_element(
-                var_name, static_cast<int>(index_value), replacement);
+                var_name, Variable::index_to_int(index_value), replacement);
         } else {
             interpreter.assign_array_element(var_name,
-                                             static_cast<int>(index_value),
+                                             Variable::index_to_int(index_value),
                                              right_value.as_numeric());
         }
     } else {
